@@ -514,7 +514,7 @@ func c15(c *wk.Ctx) {
 // service removed in between makes the closing service() / services() answers (and the next round's
 // registration of the name) impossible in every sequential order.
 func c15pair(c *wk.Ctx) {
-	c.Cases("pair", c.Pick(360, 12000), func(i int, rng *rand.Rand) {
+	c.Cases("pair", c.Pick(360, 6000), func(i int, rng *rand.Rand) {
 		w, err := newWorld("unix", nil)
 		if err != nil {
 			c.Inconclusive("pair", i, "world: "+err.Error())
